@@ -186,3 +186,44 @@ def run_matrix(ctx, name, n_quick, n_thorough, oracle_keys=(), mode="par", jobs=
             agg.add(r)
     standard_verdicts(ctx, agg, name, oracle_keys)
     return agg
+
+
+def run_serial(ctx, cfg, tag):
+    """the real serial runtime on a GenModel instance vs. Model/Serial.lean (verbatim heap) with the observed timer decisions"""
+    ops, cf = ctx.path("sops_%s" % tag), ctx.path("sc_%s" % tag)
+    args = [ctx.path("hrun"), "serial", ops, cf] + ["%s=%s" % kv for kv in sorted(cfg.items())]
+    rc, out = vlib.run(args, timeout=600)
+    stats = None
+    for l in out.splitlines():
+        if l.startswith("{"):
+            try:
+                stats = json.loads(l)
+            except ValueError:
+                pass
+    res = {"cfg": cfg, "rc": rc, "stats": stats or {"outcome": "crash"}, "out": out[-1500:], "mode": "serial"}
+    res["outcome"] = res["stats"]["outcome"]
+    lf = cf + ".lean"
+    ctx.driver("serial2", ops, lf)
+    c = [x.split(" fr=")[0] for x in open(cf, errors="replace").read().splitlines() if x.startswith("d ") or x.startswith("sfini")]
+    l = [x for x in open(lf, errors="replace").read().splitlines() if x.startswith("d ") or x.startswith("sfini")]
+    oc = [x for x in open(lf, errors="replace").read().splitlines() if x.startswith("outcome")]
+    div = None
+    for i in range(min(len(c), len(l))):
+        if c[i] != l[i]:
+            div = {"line": i + 1, "op": "dispatch #%d" % i, "impl": c[i], "model": l[i]}
+            break
+    if div is None and len(c) != len(l) and res["outcome"] != "crash":
+        div = {"line": min(len(c), len(l)) + 1, "op": "<length>", "impl": "%d dispatches" % len(c), "model": "%d dispatches %s" % (len(l), oc)}
+    res["div"] = div
+    res["lines"] = min(len(c), len(l))
+    # S oracle on the implementation's own dispatch stream: non-decreasing time stamps
+    tqs = [int(x.split("tq=")[1].split()[0]) for x in c if x.startswith("d ")]
+    res["unsorted"] = sum(1 for a, b in zip(tqs, tqs[1:]) if b < a)
+    res["ties"] = sum(1 for a, b in zip(tqs, tqs[1:]) if b == a)
+    res["sample"] = c[5:8]
+    for f in (ops, cf, lf):
+        try:
+            os.remove(f)
+        except OSError:
+            pass
+    return res
